@@ -5,6 +5,8 @@ package verifharness
 // the shape of the body and any processing side effect are recorded.
 
 import (
+	"syscall"
+	"context"
 	"bufio"
 	"bytes"
 	"crypto/rand"
@@ -435,6 +437,79 @@ func RunRouter(env *Env, prefix, in, out string) error {
 					"link": viaLink, "status": status, "oneJson": oneJSON || k != "retired", "effects": effects,
 				})
 			}
+		}
+		// a consumer that gives up (its connection is reset) while its token is being checked: the certificate path is a named
+		// pipe, so the harness decides how long reading the certificate takes.  The request's context is cancelled while the
+		// check waits for the certificate, the certificate is delivered afterwards.  Whatever the sender did, a request
+		// without an acceptable token is not processed
+		fifo := filepath.Join(env.Dir, fmt.Sprintf("nrfcert-fifo-%d", caseNo))
+		_ = os.Remove(fifo)
+		if syscall.Mkfifo(fifo, 0o600) == nil {
+			factory.ChfConfig.Configuration.NrfCertPem = fifo
+			chf_context.InitChfContext(self)
+			self.OAuth2Required = true
+			pemBytes, _ := os.ReadFile(nrfPem2)
+			feed := func(wait time.Duration) bool { // hand the certificate to a reader of the pipe, if one turns up
+				deadline := time.Now().Add(wait)
+				for time.Now().Before(deadline) {
+					fd, err := syscall.Open(fifo, syscall.O_WRONLY|syscall.O_NONBLOCK, 0)
+					if err == nil {
+						f := os.NewFile(uintptr(fd), fifo)
+						_ = syscall.SetNonblock(fd, false)
+						_, _ = f.Write(pemBytes)
+						_ = f.Close()
+						return true
+					}
+					time.Sleep(5 * time.Millisecond)
+				}
+				return false
+			}
+			for _, ri := range router.Routes() {
+				path := ri.Path
+				path = strings.ReplaceAll(path, ":ChargingDataRef", ref)
+				path = strings.ReplaceAll(path, ":rechargingInfo", supi+"_1")
+				path = strings.ReplaceAll(path, ":OfflineChargingDataRef", "x")
+				path = strings.ReplaceAll(path, ":subscriptionId", "x")
+				for _, k := range []string{"foreignkey", "hs256"} {
+					before := snapshot()
+					rec := httptest.NewRecorder()
+					var rb []byte
+					if ri.Method == "POST" || ri.Method == "PUT" {
+						rb = []byte(upd)
+					}
+					ctx, cancel := context.WithCancel(context.Background())
+					req := httptest.NewRequest(ri.Method, path, bytes.NewReader(rb)).WithContext(ctx)
+					req.Header.Set("Content-Type", "application/json")
+					req.Header.Set("Authorization", tokens[k])
+					done := make(chan struct{})
+					go func() { defer close(done); router.ServeHTTP(rec, req) }()
+					// wait until the check is reading the certificate (a writer can open the pipe), then the sender goes away
+					time.Sleep(30 * time.Millisecond)
+					cancel()
+					time.Sleep(60 * time.Millisecond)
+					fed := feed(300 * time.Millisecond)
+					status := -1
+					select {
+					case <-done:
+						status = rec.Code
+					case <-time.After(10 * time.Second):
+						feed(200 * time.Millisecond)
+					}
+					effects := []string{}
+					if snapshot() != before {
+						effects = append(effects, "state")
+					}
+					if len(env.TakeNotifs()) > 0 {
+						effects = append(effects, "notification")
+					}
+					seq++
+					emit(map[string]any{
+						"trace": c.ID, "seq": seq, "action": "probe", "method": ri.Method, "route": ri.Path, "tok": k, "gaveup": true, "fed": fed,
+						"status": status, "oneJson": true, "effects": effects,
+					})
+				}
+			}
+			_ = os.Remove(fifo)
 		}
 		self.OAuth2Required = false
 	}
